@@ -16,6 +16,7 @@ structure Pending where
   op : Op
   ctx : Bool
   out : Out
+  now : Time := 0
   deriving Inhabited
 
 structure S where
@@ -125,7 +126,8 @@ def stepLine (s : S) (req resp : List String) : S × List String :=
           | none => []
           | some p =>
             (Mon.c01 s.dump ts p.op p.ctx p.out).map ("MON C01 " ++ ·) ++
-            (Mon.c12Step s.dump ts p.op p.out).map ("MON C12 " ++ ·)
+            (Mon.c12Step s.dump ts p.op p.out).map ("MON C12 " ++ ·) ++
+            (if p.ctx then [] else (Mon.c13 s.dump ts p.op p.now).map ("MON C13 " ++ ·))
         let nt := s.nontrivial || ts.any (·.state != .scheduled)
         ({ s with dump := ts, pending := none, nontrivial := nt }, d1 ++ mons)
     | _ => (s, ["DIFF parse bad dump"])
@@ -191,7 +193,7 @@ def stepLine (s : S) (req resp : List String) : S × List String :=
            | .task t => (Mon.c12Task t).map ("MON C12 " ++ ·)
            | .tasks ts => (ts.flatMap Mon.c12Task).map ("MON C12 " ++ ·)
            | _ => [])
-        ({ s with model := m', mem := mem', pending := some { op, ctx, out }, ops := s.ops + 1,
+        ({ s with model := m', mem := mem', pending := some { op, ctx, out, now }, ops := s.ops + 1,
                   errs := s.errs + (if out.isErr then 1 else 0),
                   nontrivial := s.nontrivial || out.isErr }, d ++ mons)
 
